@@ -3268,7 +3268,12 @@ Boolean PushSymbol(tStrComp const* pSymName, tStrComp const* pStackName) {
 
     Elem             = (PSymbolStackEntry)malloc(sizeof(TSymbolStackEntry));
     Elem->Next       = LStack->Contents;
-    Elem->Contents   = pSrc->SymWert;
+
+    /* a string value needs its own buffer: the symbol may get a new value
+       (and free the old one) while the copy is on the stack */
+
+    as_tempres_ini(&Elem->Contents);
+    as_tempres_copy(&Elem->Contents, &pSrc->SymWert);
     LStack->Contents = Elem;
 
     return True;
@@ -3314,8 +3319,9 @@ Boolean PopSymbol(tStrComp const* pSymName, tStrComp const* pStackName) {
         return False;
     }
 
-    Elem             = LStack->Contents;
-    pDest->SymWert   = Elem->Contents;
+    Elem = LStack->Contents;
+    as_tempres_copy(&pDest->SymWert, &Elem->Contents);
+    as_tempres_free(&Elem->Contents);
     LStack->Contents = Elem->Next;
     if (!LStack->Contents) {
         if (!PStack) {
@@ -3343,6 +3349,7 @@ void ClearStacks(void) {
         while (Act->Contents) {
             Elem          = Act->Contents;
             Act->Contents = Elem->Next;
+            as_tempres_free(&Elem->Contents);
             free(Elem);
             z++;
         }
